@@ -592,4 +592,46 @@ def attestationOK (L : Lib) (env : Env) (policy : Option Policy) (ts : Time) (q 
   | .error _ => false
   | .ok v => allowed.contains (v.mrEnclave, v.mrSigner) && slice v.reportData 0 32 == rakHash
 
+/-! ### which policy the verifier ends up with at node registration
+(go/common/node/tee.go:35-57 `ApplyDefaultConstraints`, sgx.go:232-235, sgx/quote/quote.go:20-56) -/
+
+/-- `quote.Policy`: the IAS part is opaque here (an identifier), the PCS part is the quote policy. -/
+structure QPolicy where
+  ias : Option Nat
+  pcs : Option Policy
+  deriving DecidableEq, Repr
+
+/-- `TEEFeaturesSGX`: the PCS feature flag and the consensus default policy. -/
+structure Features where
+  pcs : Bool
+  defaultPolicy : Option QPolicy
+  deriving DecidableEq, Repr
+
+/-- `ApplyDefaultConstraints` on the descriptor's `SGXConstraints.Policy` (`none` = nil pointer,
+`some ⟨none, none⟩` = the empty object `policy: {}`): three INDEPENDENT steps. -/
+def applyDefaults (fs : Features) (sc : Option QPolicy) : Option QPolicy :=
+  match fs.defaultPolicy with
+  | none => sc
+  | some d =>
+    let p : QPolicy := sc.getD { ias := none, pcs := none }
+    let p : QPolicy := if p.ias.isNone then { p with ias := d.ias } else p
+    let p : QPolicy := if p.pcs.isNone && fs.pcs then { p with pcs := d.pcs } else p
+    some p
+
+/-- The PCS policy that reaches `pcs.Quote.Verify`: `quote.Quote.Verify` turns a nil policy into
+the empty one and passes its PCS part, and `none` there selects the built-in default. -/
+def effectivePcsPolicy (fs : Features) (sc : Option QPolicy) : Option Policy :=
+  ((applyDefaults fs sc).getD { ias := none, pcs := none }).pcs
+
+/-- The descriptor sets a PCS policy of its own. -/
+def descriptorSetsPcs (sc : Option QPolicy) : Bool :=
+  match sc with
+  | some p => p.pcs.isSome
+  | none => false
+
+/-- `SGXAttestation.Verify` including the resolution of the policy. -/
+def registrationOK (L : Lib) (env : Env) (fs : Features) (sc : Option QPolicy) (ts : Time)
+    (q : Quote) (tcb : Option Bundle) (allowed : List (Bytes × Bytes)) (rakHash : Bytes) : Bool :=
+  attestationOK L env (effectivePcsPolicy fs sc) ts q tcb allowed rakHash
+
 end OasisModel.Pcs
